@@ -300,6 +300,9 @@ func isAlnum(b byte) bool {
 var randAlphabet = []string{"a", "b", "z", "A", "Q", "Z", "0", "7", "_", "-", ".", " ", "/", "~", "+", "é", "Ü", "ǅ", "ß", "İ", "ı", "世", "界", "́", "😀", "\x00", "\t", "\n",
 	"\xff", "\xc3", "\xed\xa0\x80", "ID", "Id", "id", "HTTP", "v2", "ſ", "K"}
 
+var identFragments = []string{"user", "ID", "IDs", "Id", "s", "S", "es", "URL", "URLs", "API", "APIs", "IP", "IPs", "List", "From", "Text", "Is", "Valid", "DNS", "sec", "HTTP", "HTTPS", "Server", "v", "2", "V2", "x", "X",
+	"_", "-", " ", ".", "only", "allowed", "parse", "A", "a", "é", "É", "ß", "Σ", "ς", "JSON", "json", "2fa", "3D", "i18n", "OAuth2", "IPv6", "utf8", "UTF8", "Ph", "D"}
+
 func (p *prop) Run(c core.Case, w *core.Worker) core.Result {
 	res := core.Result{CaseID: c.ID}
 	switch c.Kind {
@@ -325,6 +328,11 @@ func (p *prop) Run(c core.Case, w *core.Worker) core.Result {
 		r := rand.New(rand.NewSource(c.Seed))
 		inputs := make([]string, rp["n"])
 		for i := range inputs {
+			if i%3 == 2 {
+				// identifier-like: realistic fragments (initialisms and their plurals, lone letters, digits, separators)
+				inputs[i] = core.RandString(r, identFragments, 1+r.Intn(6))
+				continue
+			}
 			inputs[i] = core.RandString(r, randAlphabet, 1+r.Intn(14))
 		}
 		process(&res, inputs, false, "")
